@@ -318,7 +318,8 @@ class C11:
 
     def strategy(self, tier):
         kw = dict(max_machines=5, max_obs=3, max_nodes=6) if tier == 'quick' else dict(max_machines=8, max_obs=4, max_nodes=10)
-        base = scenarios(delays=True, **kw)
+        from .props_sim import crowd, tight
+        base = mix((3, scenarios(delays=True, **kw)), (2, crowd(kw, max_duration=4)), (1, tight(kw)))
         return st.tuples(base, st.lists(st.floats(0.02, 0.98), min_size=1, max_size=3), st.sampled_from([0, 0, 0, 1, 3])).map(
             lambda t: {'sc': t[0], 'frac': t[1], 'tail': t[2]})
 
@@ -339,7 +340,22 @@ class C11:
         if 'points' in case:
             pts = [p for p in case['points'] if 0 < p < T_ + tail]
         else:
-            pts = sorted({max(1, min(T_ + tail - 1, int(f * (T_ + tail)))) for f in case['frac']}) if T_ + tail > 1 else []
+            # half of the pause points are drawn from the steps at (or right after) which something happened in the
+            # reference run - observation begun / finished, data stored, workflow queued / started / finished
+            trr = full['tr']
+            cand = set()
+            for r_ in trr.obs.values():
+                for k_ in ('begin', 'finish', 'queued_at', 'alloc_started_at', 'dequeued_at', 'freed_at'):
+                    if r_[k_] is not None:
+                        cand.update({int(r_[k_]), int(r_[k_]) + 1, int(r_[k_]) + 2})
+            cand = sorted(c for c in cand if 0 < c < T_ + tail)
+            pts = set()
+            for i_, f in enumerate(case['frac']):
+                if i_ % 2 == 0 and cand:
+                    pts.add(cand[min(len(cand) - 1, int(f * len(cand)))])
+                elif T_ + tail > 1:
+                    pts.add(max(1, min(T_ + tail - 1, int(f * (T_ + tail)))))
+            pts = sorted(pts)
         if not pts:
             state.count('too_short_to_pause')
             return []
@@ -375,21 +391,28 @@ class C11:
     def run_shard(self, state, tier, seed, shard, nshards, cases=None):
         total = cases or self.cases[tier]
         run_given(state, self.strategy(tier), self.body, max(1, total // nshards), shard_seed(seed, self.prop, shard))
-        if state.failures or tier != 'thorough':
+        if state.failures:
             return
-        # every pause point of a few generated scenarios
+        # every pause point of a few generated scenarios (quick: 2 small ones per shard from the families in which
+        # several observations begin / end together; thorough: 6 per shard from the whole mix)
         from .engine import ShardState
+        from .props_sim import crowd, tight
         collected = []
         tmp = ShardState(self.prop, tier, known=[])
 
         def collect(case, st_):
-            collected.append(case['sc'])
+            collected.append(case if 'machines' in case else case['sc'])
             return []
-        run_given(tmp, self.strategy(tier), collect, 6, shard_seed(seed, self.prop, shard, 'enum'), shrink=False)
+        if tier == 'thorough':
+            run_given(tmp, self.strategy(tier), collect, 6, shard_seed(seed, self.prop, shard, 'enum'), shrink=False)
+        else:
+            kw = dict(max_machines=4, max_obs=3, max_nodes=3)
+            run_given(tmp, mix((2, crowd(kw, max_duration=3)), (1, tight(kw))), collect, 2,
+                      shard_seed(seed, self.prop, shard, 'enum'), shrink=False)
         n = 0
         for sc in collected:
             full, _ = run_controlled(sc, 'full')
-            if full['status'] != 'completed' or full['end'] > 40:
+            if full['status'] != 'completed' or full['end'] > (40 if tier == 'thorough' else 26):
                 continue
             for k in range(1, int(full['end'])):
                 n += 1
